@@ -381,3 +381,153 @@ func ruleJSONKeysEncoded(r *Run) {
 		r.ok("keyvalue:json-keys-encoded", fmt.Sprintf("%d functions of keyvalue emit JSON, none formats a key between quotes", nWriters), "-")
 	}
 }
+
+// ---------------------------------------------------------------------------------------------
+// R13.11 / R13.12 — one element per position within a request; kind changes reach the subscribers
+
+func init() {
+	register(ruleDef{ID: "R13.11", Prop: "C13", Tier: "quick", Floor: 3,
+		Title: "one element per position, also within one request: where a position→index map decides between replacing and appending, the map is extended when an element is appended (otherwise two elements of one POST at one position are both stored, in every view)",
+		Fn:    rulePositionMapExtended})
+	register(ruleDef{ID: "R13.12", Prop: "C13", Tier: "quick", Floor: 1,
+		Title: "per-kind counts follow replacements: where the label view replaces an element at an existing position, a change of its kind is reported to the subscribers (delete of the old kind, add of the new)",
+		Fn:    ruleKindChangeReported})
+}
+
+func rulePositionMapExtended(r *Run) {
+	w := r.W
+	n := 0
+	for _, f := range w.RepoFuncs {
+		if relPkg(pkgPathOf(f)) != "datatype/annotation" || len(f.Blocks) == 0 || strings.HasSuffix(w.fposFile(f), "_test.go") {
+			continue
+		}
+		k := 0
+		for _, b := range f.Blocks {
+			ifi, ok := b.Instrs[len(b.Instrs)-1].(*ssa.If)
+			if !ok {
+				continue
+			}
+			// `found` of a comma-ok lookup in a map[string]int keyed by MapKey()
+			ex, ok := ifi.Cond.(*ssa.Extract)
+			if !ok || ex.Index != 1 {
+				continue
+			}
+			lk, ok := ex.Tuple.(*ssa.Lookup)
+			if !ok || !lk.CommaOk {
+				continue
+			}
+			byPos := false
+			for d := range dataDeps(lk.Index) {
+				if c, ok := d.(*ssa.Call); ok && methodNameOf(c) == "MapKey" {
+					byPos = true
+				}
+			}
+			if !byPos {
+				continue
+			}
+			h, set, _ := innermostLoop(f, b)
+			if h == nil {
+				continue
+			}
+			// the not-found edge appends
+			miss := b.Succs[1]
+			appends := false
+			var region []*ssa.BasicBlock
+			seen := map[*ssa.BasicBlock]bool{}
+			var walk func(x *ssa.BasicBlock)
+			walk = func(x *ssa.BasicBlock) {
+				if seen[x] || !set[x] || x == h || !miss.Dominates(x) {
+					return
+				}
+				seen[x] = true
+				region = append(region, x)
+				for _, s := range x.Succs {
+					walk(s)
+				}
+			}
+			walk(miss)
+			extended := false
+			for _, x := range region {
+				for _, in := range x.Instrs {
+					if c, ok := in.(*ssa.Call); ok {
+						if bi, ok := c.Call.Value.(*ssa.Builtin); ok && bi.Name() == "append" {
+							appends = true
+						}
+					}
+					if mu, ok := in.(*ssa.MapUpdate); ok && (mu.Map == lk.X || placeKey(mu.Map) == placeKey(lk.X)) {
+						extended = true
+					}
+				}
+			}
+			if !appends {
+				continue
+			}
+			n++
+			k++
+			r.check(extended, fmt.Sprintf("%s:position-map#%d:extended-on-append", fname(f), k), "the appended element's position is entered into the map",
+				"an element is appended when its position is not in the position map, but the map is not extended: a second element of the same request at that position is appended too, so one position holds two elements (and a later delete removes only one of them from some views)", w.pos(lk.Pos()))
+		}
+	}
+	r.check(n >= 3, "annotation:replace-or-append-sites", fmt.Sprintf("%d sites", n), "too few: rule needs review", "-")
+}
+
+func ruleKindChangeReported(r *Run) {
+	w := r.W
+	f := w.method("datatype/annotation", "Data", "storeLabelElements")
+	if f == nil || len(f.Blocks) == 0 {
+		r.violation("annotation.Data.storeLabelElements", "not found", "-")
+		return
+	}
+	// a comparison of two Kind fields that guards appends to both delta.Del and delta.Add
+	ok := false
+	for _, b := range f.Blocks {
+		ifi, isIf := b.Instrs[len(b.Instrs)-1].(*ssa.If)
+		if !isIf {
+			continue
+		}
+		bo, isBo := ifi.Cond.(*ssa.BinOp)
+		if !isBo || (bo.Op != token.NEQ && bo.Op != token.EQL) {
+			continue
+		}
+		isKind := func(v ssa.Value) bool {
+			for d := range dataDeps(v) {
+				switch x := d.(type) {
+				case *ssa.FieldAddr:
+					if name, _, _ := fieldName(x); name == "Kind" {
+						return true
+					}
+				case *ssa.Field:
+					if name, _, _ := fieldName(x); name == "Kind" {
+						return true
+					}
+				}
+			}
+			return false
+		}
+		if !isKind(bo.X) || !isKind(bo.Y) {
+			continue
+		}
+		edge := 0
+		if bo.Op == token.EQL {
+			edge = 1
+		}
+		del, add := false, false
+		for _, in := range b.Succs[edge].Instrs {
+			if st, isSt := in.(*ssa.Store); isSt {
+				if fa, isFA := st.Addr.(*ssa.FieldAddr); isFA {
+					switch name, _, _ := fieldName(fa); name {
+					case "Del":
+						del = true
+					case "Add":
+						add = true
+					}
+				}
+			}
+		}
+		if del && add {
+			ok = true
+		}
+	}
+	r.check(ok, "storeLabelElements:kind-change-reported", "a replacement whose kind differs appends to delta.Del and delta.Add",
+		"the label view replaces an element at an existing position without telling the subscribers when its kind changed: label/<l> shows the new kind while the synced labelsz keeps counting the old one", w.fpos(f))
+}
